@@ -36,7 +36,7 @@ ASSUMPTIONS = [
 
 @st.composite
 def cases(draw):
-    spec = draw(wfspecs({'max_tasks': 5, 'max_fcp': 6}))
+    spec = draw(wfspecs({'max_tasks': 5, 'max_fcp': 6, 'future_odds': 2}))
     if draw(st.integers(0, 2)) == 0:
         spec['extra']['stop_after'] = draw(
             st.integers(spec['icp'], spec['fcp']))
